@@ -872,7 +872,49 @@ impl Sim {
             self.archive[j] = m.clone();
         }
         if let Some(i) = self.idx_of(m.to) {
+            let is_app = m.get_msg_type() == MessageType::MsgAppend;
             self.call(i, Call::Step(m));
+            if is_app {
+                self.after_append(i);
+            }
+        }
+    }
+
+    /// A node that has just learnt of committed membership entries it has neither persisted nor
+    /// applied is asked to campaign at once (the campaign guard must see them although nothing
+    /// can be handed to the application yet).
+    fn after_append(&mut self, i: usize) {
+        if self.unpersisted_committed_conf_change(i) && self.rng.chance(1, 2) {
+            if !self.adversarial || self.rng.chance(1, 2) {
+                self.call(i, Call::Campaign);
+            } else {
+                let mut t = Message::default();
+                t.set_msg_type(MessageType::MsgTimeoutNow);
+                t.to = self.nodes[i].id;
+                if let Some(d) = self.nodes[i].driver.as_ref() {
+                    t.from = d.node.raft.leader_id;
+                    t.term = d.node.raft.term;
+                }
+                if t.from != 0 {
+                    self.call(i, Call::Step(t));
+                }
+            }
+        }
+    }
+
+    fn unpersisted_committed_conf_change(&self, i: usize) -> bool {
+        let d = match self.nodes[i].driver.as_ref() {
+            Some(d) => d,
+            None => return false,
+        };
+        let l = &d.node.raft.raft_log;
+        let lo = l.persisted.max(l.applied) + 1;
+        if l.committed < lo || lo < l.first_index() {
+            return false;
+        }
+        match l.slice(lo, l.committed + 1, None, raft::GetEntriesContext::empty(false)) {
+            Ok(es) => es.iter().any(|e| e.get_entry_type() != EntryType::EntryNormal),
+            Err(_) => false,
         }
     }
 
@@ -972,6 +1014,44 @@ impl Sim {
                 ents.push(e);
             }
             m.set_entries(ents.into());
+        }
+        if ty == MsgAppend && self.rng.chance(1, 3) {
+            // a well-formed catch-up append from the node's leader: anchored at the receiver's last
+            // entry, entries of the current term (membership changes among them), and a commit index
+            // that covers what it ships - what a follower that was cut off receives when it returns
+            let (lead, lt) = {
+                let d = self.nodes[i].driver.as_ref()?;
+                (d.node.raft.leader_id, d.node.raft.raft_log.term(last).unwrap_or(0))
+            };
+            m.term = term;
+            if lead != 0 && lead != id {
+                m.from = lead;
+            }
+            m.index = last;
+            m.log_term = lt;
+            let k = 1 + self.rng.below(3);
+            let mut ents = vec![];
+            for j in 0..k {
+                let mut e = Entry::default();
+                e.index = last + 1 + j;
+                e.term = term;
+                if self.rng.chance(1, 2) {
+                    let (ety, data) = match self.random_cc() {
+                        CcKind::V1(cc) => (EntryType::EntryConfChange, cc.write_to_bytes().unwrap()),
+                        CcKind::V2(cc) => (EntryType::EntryConfChangeV2, cc.write_to_bytes().unwrap()),
+                        CcKind::Raw(t, d) => (if t == 1 { EntryType::EntryConfChange } else { EntryType::EntryConfChangeV2 }, d),
+                    };
+                    e.set_entry_type(ety);
+                    e.data = data.into();
+                } else {
+                    e.data = self.payload().into();
+                }
+                ents.push(e);
+            }
+            m.set_entries(ents.into());
+            m.commit = last + self.rng.below(k + 2);
+            m.reject = false;
+            m.request_snapshot = 0;
         }
         if ty == MsgSnapshot || self.rng.chance(1, 20) {
             let mut sn = Snapshot::default();
@@ -1108,7 +1188,11 @@ impl Sim {
                 }
                 _ => {
                     if let Some(m) = self.adversarial_msg(i) {
+                        let is_app = m.get_msg_type() == MessageType::MsgAppend;
                         self.call(i, Call::Step(m));
+                        if is_app {
+                            self.after_append(i);
+                        }
                     }
                 }
             }
@@ -1327,6 +1411,19 @@ impl Sim {
                     for j in 0..self.nodes.len() {
                         if self.nodes[j].driver.is_some() && self.nodes[j].to_apply.len() > self.nodes[best].to_apply.len() {
                             best = j;
+                        }
+                    }
+                    // ... or the one with the most committed entries its store has not persisted yet
+                    // (the campaign guard has to look at them although nothing can be handed out)
+                    if self.rng.chance(1, 2) {
+                        let gap = |n: &SimNode| n.driver.as_ref().map_or(0, |d| {
+                            let l = &d.node.raft.raft_log;
+                            l.committed.saturating_sub(l.persisted.max(l.applied))
+                        });
+                        for j in 0..self.nodes.len() {
+                            if gap(&self.nodes[j]) > gap(&self.nodes[best]) {
+                                best = j;
+                            }
                         }
                     }
                     self.call(best, Call::Campaign);
